@@ -152,6 +152,14 @@ def run_config(ctx, case):
     d = ref.branch_distance(x)
     ok = np.isfinite(d) & (d > 0)
     h = pow2_step(np.where(ok, d, 1.0))
+    # far from the origin the spacing of the doubles may exceed that step (a narrow
+    # interval on a large offset): the step is then the smallest one whose half is still
+    # a whole number of spacings, provided the widest stencil (x +- 4 * 2h) stays well
+    # inside the branch
+    sp = 2.0 * np.spacing(np.abs(x))
+    coarse = sp > h
+    h = np.where(coarse, sp, h)
+    ok &= ~coarse | (16 * h < d)
     # exact representability of the stencil abscissae
     ok &= ((x + 2 * h) - x == 2 * h) & (x - (x - 2 * h) == 2 * h) & \
         ((x + h) - x == h) & (x - (x - h) == h)
